@@ -10,11 +10,11 @@ CLAIMED = {
    ref="§3 C03"),
 
  "C02": dict(level="translation_validation", tech="symbolic byte accounting (size() vs writer normal forms) + abstract interpretation of header arithmetic with a piecewise-affine domain + per-path frame summaries of readers + call-graph cycle check",
-   text="(1) For every container the separately generated size() formula and the bytes emitted by write_into_vec are reduced to canonical sums of guarded terms and must be identical branch by branch (1,694 containers). (2) The default write_* methods and header helpers are evaluated by an abstract interpreter whose domain is piecewise-affine in the body length B, over every B the header form can express: size field = opcode+B, header length, 2/3-byte form predicate, overflow/truncation, and the writers' own assert. (3) Every reader entry point (opcode-enum readers and expect_* helpers, 3 flavours, plain/encrypted) is summarised per path: header bytes consumed + body bytes read must equal size bytes + size field, and the body decoder must be given the same length. (4) No recursion on write paths. This covers all lengths around 0x7FFF/0xFFFF and all messages, which no test does.",
-   note="trusts rustc resolution, wow_srp's header API contract (frozen), std Vec/Write; stream alignment for sequences follows by induction from the per-message obligations; four genuine defects are known findings, two were repaired by fix: commits",
+   text="(1) For every container the separately generated size() formula and the bytes emitted by write_into_vec are reduced to canonical sums of guarded terms and must be identical branch by branch (1,694 containers). (2) The default write_* methods and header helpers are evaluated by an abstract interpreter whose domain is piecewise-affine in the body length B, over every B the header form can express: size field = opcode+B, header length, 2/3-byte form predicate, overflow/truncation, and the writers' own assert. (3) Every reader entry point (opcode-enum readers and expect_* helpers, 3 flavours, plain/encrypted) is summarised per path: header bytes consumed + body bytes read must equal size bytes + size field, and the body decoder must be given the same length. (4) The hand-written header parsers are evaluated on abstract header bytes (byte order, 0x80 marker, opcode width). (5) No recursion on write paths. This covers all lengths around 0x7FFF/0xFFFF and all messages, which no test does.",
+   note="trusts rustc resolution, wow_srp's header API contract (frozen), std Vec/Write; stream alignment for sequences follows by induction from the per-message obligations; four genuine defects are known findings, three were repaired by fix: commits",
    ref="§3 C02"),
  "C05": dict(level="other", tech="twin equality of encrypted/plain writers modulo the header step, must-call-once on the encrypter, per-path decrypt counting in readers (frame summaries)",
-   text="Per-message obligations that give cipher synchrony by induction over the sequence: each encrypted writer equals its plain twin outside the header step and steps the encrypter exactly once outside loops (60 pairs); on every path of every encrypted reader (36 functions) each header buffer read from the stream is decrypted exactly once, no body byte is, and the path consumes exactly the bytes the plain reader consumes and hands the same length to the body decoder.",
+   text="Per-message obligations that give cipher synchrony by induction over the sequence: each encrypted writer equals its plain twin outside the header step and steps the encrypter exactly once outside loops (60 pairs); the header the 18 encrypted writers hand to the cipher has the form, size field and byte placement the reader reconstructs for every body length; on every path of every encrypted reader (36 functions) each header buffer read from the stream is decrypted exactly once, no body byte is, and the path consumes exactly the bytes the plain reader consumes and hands the same length to the body decoder.",
    note="the cipher itself (wow_srp) is trusted with its API contract; equality of returned messages follows from C01 plus these obligations and is not executed",
    ref="§3 C05"),
  "C06": dict(level="other", tech="sibling equality of normalised typed-HIR trees across sync/tokio/async-std copies + resolved-callee rule: only read_exact-class calls touch the transport",
@@ -22,9 +22,9 @@ CLAIMED = {
    note="trusts the read_exact contracts of std/tokio/async-std and rustc's resolution; needs the async-std feature built (done in the union facts configuration)",
    ref="§3 C06"),
 
- "C01": dict(level="translation_validation", tech="static translation validation: wire layouts extracted from typed HIR of every generated reader/writer compared with wowm reference layouts; opcode table agreement; lossless-conversion taint rule",
-   text="For every version-expanded container (2,718 containers, 2,930 readers incl. the three login flavours, 2,718 writers) the sequence of transport reads/writes with its full branch structure is extracted from rustc's typed HIR and compared structurally with the layout computed from the wowm text by an independent parser; opcode enum arms, payload types and OPCODE constants are compared with the wowm opcodes. Covers every definition and every branch, not the single path of the 13% of codecs that have a captured packet.",
-   note="trusts rustc resolution, std/flate2 leaf codecs and the hand-written built-in codecs as named leaves; byte equality for concrete values follows from layout agreement and is not separately executed; three genuine defects are known findings",
+ "C01": dict(level="translation_validation", tech="static translation validation: wire layouts extracted from typed HIR of every generated reader/writer compared with wowm reference layouts; opcode table agreement; lossless-conversion taint rule; bounded abstract interpretation of the hand-written string/packed-guid leaf codecs; complete-reads rule",
+   text="For every version-expanded container (2,718 containers, 2,930 readers incl. the three login flavours, 2,718 writers) the sequence of transport reads/writes with its full branch structure is extracted from rustc's typed HIR and compared structurally with the layout computed from the wowm text by an independent parser; opcode enum arms, payload types and OPCODE constants are compared with the wowm opcodes. The hand-written string and packed-guid leaf codecs are interpreted abstractly over every length / mask class (3,117 classes), and decode paths may only use complete reads. Covers every definition and every branch, not the single path of the 13% of codecs that have a captured packet.",
+   note="trusts rustc resolution, std/flate2 leaf codecs and the the remaining hand-written built-in codecs (masks, splines) as named leaves; byte equality for concrete values follows from layout agreement and is not separately executed; three genuine defects are known findings",
    ref="§3 C01"),
  "C04": dict(level="other", tech="per-field structural rule on extracted read layouts (enum conversions at full wire width, exact-size guard first, rejecting opcode arm)",
    text="Every enum-typed member of every reader (1,273 members incl. nested/conditional/array/upcast ones) must be produced by the fallible TryFrom conversion applied at its full wire width; every constant-sized message must begin with the exact-size guard for the size recomputed from wowm; every opcode reader must end in a catch-all arm that returns the offending opcode. These are the fault sites the statement enumerates, decided for all of them from the code shape.",
